@@ -19,6 +19,34 @@ def cases(rng, tier):
     return K.cases(rng, tier) + S.slab_cases(rng, tier)
 
 
+def guard_cases(kc):
+    """the kernel cases again, with every operand flush against an inaccessible page (both placements)"""
+    out = []
+    for c in kc:
+        a = c.args
+        if c.fn == "k_add":
+            isa, ln = a[0], a[2]
+            body = [0, isa, None, 0, ln] + a[3:]
+        elif c.fn == "k_mul":
+            isa, cc, ln = a[0], a[2], a[3]
+            body = [1, isa, None, cc, ln] + a[4:]
+        elif c.fn == "k_fma":
+            isa, cc, ln = a[0], a[2], a[3]
+            if isa == 4 and cc < 2:
+                continue
+            body = [2, isa, None, cc, ln] + a[4:]
+        elif c.fn == "k_fmabin":
+            isa, cc, ln, nw = a[0], a[2], a[3], a[4]
+            body = [3, isa, None, cc, ln, nw] + a[5:]
+        else:
+            continue
+        for place in (0, 1):
+            b = list(body)
+            b[2] = place
+            out.append(C.Case("kg", b, tag=c.fn))
+    return out
+
+
 def evaluate(cases, rep, tier):
     kc = [c for c in cases if c.fn.startswith("k_")]
     sc = [c for c in cases if c.fn == "slab_replay"]
@@ -26,10 +54,33 @@ def evaluate(cases, rep, tier):
     counter = [c for c in res["counterexamples"] if c.get("oracle") == "canary"]
     # element-wise mismatches are C11's business; here they still mean the access model is not validated
     other = [c for c in res["counterexamples"] if c.get("oracle") != "canary"]
-    impl_s, model_s, dis_s = G.diff_impl_model(sc, PROFILES, "slab")
+    # guard pages: an access outside an operand faults even when it rewrites identical bytes
+    gc = guard_cases([c for c in kc if c.tag != "malformed"])
+    gres = C.run_impl_crashsafe(gc, "release")
+    crashes = 0
+    for c, r in zip(gc, gres):
+        if r.startswith("CRASH"):
+            crashes += 1
+            counter.append({"input": c.impl_line()[:600], "expected": "no access outside the operands", "observed": "the process died with signal %s on a guard page (operand placed at the %s of its mapping)" % (r.split()[1].lstrip("-"), "end" if c.args[2] == 0 else "start"), "oracle": "guard pages"})
+    # slab op lists: crash-safe (a bypassed guard corrupts the heap and may abort the process)
+    model_s = C.run_model(sc)
+    impl_s = C.run_impl_crashsafe(sc, "release")
+    dis_s = []
+    for c, i, m in zip(sc, impl_s, model_s):
+        if i.startswith("CRASH"):
+            counter.append({"input": c.impl_line()[:600], "expected": "panic or result, memory intact", "observed": "the process was killed (signal %s): heap corruption / invalid access" % i.split()[1].lstrip("-"), "oracle": "process survives"})
+        elif C.canon(i) != C.canon(m):
+            dis_s.append({"input": c.impl_line(), "impl": i, "model": m, "profile": "release", "group": "slab"})
+    # a paired borrow whose guard the model fires (dest = src after mapping, index beyond count) must panic
+    for c, i, m in zip(sc, impl_s, model_s):
+        if m.startswith("0") and not i.startswith("0"):
+            counter.append({"input": c.impl_line()[:600], "expected": "panic (the paired borrow's guards refuse these indices)", "observed": i[:80], "oracle": "get_pair_mut guards"})
     st = res["stats"]
     st["evaluations"] += len(sc) * 4
     st["slab_replays"] = len(sc)
+    st["guard_page_runs"] = len(gc)
+    st["guard_page_faults"] = crashes
+    st["evaluations"] += len(gc)
     return {"disagreements": res["disagreements"] + dis_s + [{"input": o["input"], "impl": o["observed"], "model": o["expected"], "group": "kernels"} for o in other[:3]],
             "counterexamples": counter, "stats": st}
 
